@@ -115,7 +115,7 @@ def r1_roles(ctx):
         else:
             raise Unrecognised(f"{init0.where}: record dict comes from `{u(v)[:80]}`")
         ctx.ob(init0.where, "every source of the record dict keys records by the first word of the header and fills the same roles as the .fai reader (an object built "
-               "from a fresh in-memory index must behave like one built from the .fai file)", ok, detail, key=f"C17-R1|index-source|{u(v)[:30]}")
+               "from a fresh in-memory index must behave like one built from the .fai file)", ok, detail, key=f"C17-R1|index-source|{u(v)[:30]}", definite=True)
     # tuple constructors: (name, var[k1], ..) in FastaIdx field order == role order
     n = 0
     for qn in ("IndexedFasta.__init__", "IndexedFasta._get_interval_sequences_fast"):
@@ -419,7 +419,7 @@ def r3_index_builder(ctx):
             if not cut:
                 raise Unrecognised(f"{fn.where}: the .fai is written from `{'; '.join(u(v)[:60] for v in vals)}`")
         ctx.ob(fn.where, "the .fai that is written is the COMPLETE index of the FASTA (create_index(path) as it is): the file is shared by every later opener, whatever "
-               "contigs this caller ignores", whole, "; ".join(u(v)[:80] for v in vals), key=f"C17-R3|write-complete|{qn}")
+               "contigs this caller ignores", whole, "; ".join(u(v)[:80] for v in vals), key=f"C17-R3|write-complete|{qn}", definite=True)
 
 
 # single-slot memos that take a parameter, confirmed by reading: (module, function, attribute) -> why the argument cannot vary
